@@ -23,6 +23,7 @@ var namePool = []string{
 	"é", "él", "élan", "ñ", "日", "日本",
 	"p", "profile", "port", "t", "tag", "timeout", "s", "set", "size", "k", "key", "kv",
 	"i", "int", "in", "r", "rate", "ratio", "m", "map", "max", "min", "w", "u", "g", "e", "j",
+	"log_level", "log-limit", "log_", "max_retries", "max-rate", "dry_run", "_", "_x",
 }
 
 // Numbered families: names whose numeric and alphabetic order disagree, with names in between.
